@@ -127,17 +127,17 @@ Print Assumptions C13_entity_roots.
     the same tracker, emits - concatenated - exactly what the recursive DFS over
     the root list emits (hence pairwise distinct keys across the walks, by
     [C13_once]), and every walk returns nil. *)
-Theorem C13_tracker_shared : forall g tk ent loc roots fuel V,
+Theorem C13_tracker_shared : forall fl g tk ent loc roots fuel V,
   dedups tk = true ->
-  let o := mkOpts true (key_of tk) loc ent in
+  let o := mkOpts true (key_of fl tk) loc ent in
   exists outs V',
-    run_walks g tk fuel (same_walks ent loc roots) V = Some (outs, V') /\
+    run_walks fl g tk fuel (same_walks ent loc roots) V = Some (outs, V') /\
     Forall (fun x => snd x = RNil) outs /\
     dfs (fuel_of g roots) g o roots V = Some (concat (map fst outs), V') /\
-    NoDup (map (key_of tk) (concat (map fst outs))).
+    NoDup (map (key_of fl tk) (concat (map fst outs))).
 Proof.
-  intros g tk ent loc roots fuel V Hd o.
-  destruct (run_walks_shared g tk ent loc roots fuel V Hd) as (outs & n & V' & Hw & Hall & Hrun).
+  intros fl g tk ent loc roots fuel V Hd o.
+  destruct (run_walks_shared fl g tk ent loc roots fuel V Hd) as (outs & n & V' & Hw & Hall & Hrun).
   exists outs, V'. split; [exact Hw|]. split; [exact Hall|].
   destruct (run_eq_dfs g o roots V) as (e & V0 & Hr & Hdfs).
   assert (Heq : (e, V0) = (concat (map fst outs), V')).
@@ -222,18 +222,17 @@ Proof.
 Qed.
 Print Assumptions C13_alias_subtree_lost_refuted.
 
-(** The behaviour the property demands in that situation ([loop2]: traversal
-    deduplicated by CID, emission by tracker key) meets the specification for
-    EVERY graph, with no hypothesis on aliases: distinct keys, only reachable /
-    available / non-identity CIDs, and every such CID's key is emitted. *)
-Theorem C13_repaired_complete : forall g o roots,
-  exists e VT VE,
-    loop2 (fuel_of g roots) g o roots [] [] = Some (e, VT, VE) /\
-    NoDup (map (o_key o) e) /\
-    (forall x, In x e -> reach g o roots x /\ is_open g o x = true /\ n_ident (lookup g x) = false) /\
-    (forall x, reach g o roots x -> is_open g o x = true -> n_ident (lookup g x) = false ->
-               In (o_key o x) (map (o_key o) e)).
-Proof. exact loop2_correct. Qed.
+(** The repaired trackers key by codec AND multihash ([kcm]; /repo
+    dag/walker/visited.go trackerKey).  For every graph in which reachable CIDs of one
+    block under one codec look alike (CIDv0/v1 aliases - [respects] for [kcm]; the
+    raw and the dag-pb view of the same bytes are free to differ), every reachable,
+    available, non-identity CID has its MULTIHASH announced. *)
+Theorem C13_repaired_complete : forall g o roots e V' r,
+  o_dedup o = true -> o_key o = kcm -> respects g o roots ->
+  loop (fuel_of g roots) g o SNever 0 roots [] = Some (e, V', r) ->
+  forall x, reach g o roots x -> is_open g o x = true -> n_ident (lookup g x) = false ->
+            In (kmh x) (map kmh e).
+Proof. exact announces_all. Qed.
 Print Assumptions C13_repaired_complete.
 
 (** ---------- non-vacuity ---------- *)
@@ -267,11 +266,26 @@ Example C13_entity_example :
     Some ([(0, 5)%N; (0, 2)%N; (2, 1)%N], [(0, 1)%N; (0, 4)%N; (0, 2)%N; (0, 5)%N], RNil).
 Proof. vm_compute. reflexivity. Qed.
 
-(** the repaired walker on the witness of finding C13-1 emits Y *)
+(** the repaired key on the witness of finding C13-1: [respects] holds (the two
+    views of X have different keys) and Y is emitted *)
 Example C13_repaired_on_witness :
-  exists VT VE, loop2 (fuel_of c13_witness [(1, 3)%N]) c13_witness (mkOpts true kmh false false) [(1, 3)%N] [] [] =
-    Some ([(1, 3)%N; (2, 2)%N; (2, 1)%N], VT, VE).
-Proof. eexists. eexists. vm_compute. reflexivity. Qed.
+  let o := mkOpts true kcm false false in
+  respects c13_witness o [(1, 3)%N] /\
+  exists V', loop (fuel_of c13_witness [(1, 3)%N]) c13_witness o SNever 0 [(1, 3)%N] [] =
+    Some ([(1, 3)%N; (2, 2)%N; (1, 2)%N; (2, 1)%N], V', RNil).
+Proof.
+  split.
+  - apply respects_b_sound with (L := [(1, 3)%N; (2, 2)%N; (1, 2)%N; (2, 1)%N]); vm_compute; reflexivity.
+  - eexists. vm_compute. reflexivity.
+Qed.
+
+(** [respects] for the repaired key on the graph with the CIDv0/v1 alias pair *)
+Example C13_respects_kcm_satisfiable :
+  respects c13_example (mkOpts true kcm false false) [(0, 5)%N].
+Proof.
+  apply respects_b_sound with (L := [(0, 5)%N; (0, 2)%N; (1, 4)%N; (2, 1)%N; (2, 9)%N; (1, 2)%N]);
+    vm_compute; reflexivity.
+Qed.
 
 (** a Bloom chain of capacity 1 whose oracle maps every key to its own bit:
     eight keys = two growth steps (capacities 1, 4, 16); keys visited before a
